@@ -105,6 +105,98 @@ def _failure(par, b) -> OracleFailure:
     return c01.failure_from(par, b, PID)
 
 
+
+# --------------------------------------------------------------------------------------------- end to end: the QHA layer's C_V
+def adapter_oracle(files) -> List[dict]:
+    """`Calculator.modulus_adiabatic[key] − Calculator.modulus_isothermal[key]` (second observation point of the statement) on the
+    real Calculator for a synthetic data set, against T·V·(∂P_ph/∂T)²/(9 e_i e_j C_V) with
+      * C_V(T,V) from the qha package run directly on the phonon file (tvdata.qha_direct: "the heat capacity handed over by the
+        QHA layer" — no cij adapter code in between),
+      * ∂P_ph/∂T = (1/V) Σ_q ŵ_q Σ_m γ_qm k_B x² eˣ/(eˣ−1)², x = hcω̃/k_BT, from the harness' own per-mode fit of the files
+        (c05.reference_from_files) and scipy's CODATA constants; Γ-acoustic slots skipped,
+      * e_i: equal thirds without a lattice block, else the fractions the run used (C05 checks those against the lattice columns).
+    Also: the C_V array the adapter hands over IS qha's (T,V) field."""
+    from harness import tvdata, c05
+    import scipy.constants as sc
+    fails: List[dict] = []
+    run = tvdata.Run(files)
+    if run.error is not None:
+        return fails                                   # a data set the Calculator refuses is C05/C12's subject
+    calc = run.calc
+    ref = c05.reference_from_files(files)
+    if ref["modes"] is None:
+        return fails
+    qd = tvdata.qha_direct(files)
+    with tvdata.quiet():
+        cv_handed = numpy.array(calc.qha_calculator.volume_base.heat_capacity)
+        keys = {tuple(k.v): k for k in calc.modulus_keys}
+        gaps = {kv: numpy.array(calc.modulus_adiabatic[k]) - numpy.array(calc.modulus_isothermal[k]) for kv, k in keys.items()}
+        ax_used = numpy.array(calc._full_modulus.get_axial_strains(), dtype=float)
+    if cv_handed.shape != qd["cv_tv_au"].shape or not family_close(cv_handed, qd["cv_tv_au"], rtol=1e-10)[0]:
+        fails.append({"check": "heat_capacity", "key": None, "observed": cv_handed[min(1, len(cv_handed) - 1), :4].tolist(),
+                      "expected": qd["cv_tv_au"][min(1, len(cv_handed) - 1), :4].tolist()})
+    ry_j, _ = tvdata.codata()
+    kb = sc.k / ry_j                                    # Ry / K
+    inp = tvdata.parse_input01(files[ref["settings"]["input"]])
+    wq = numpy.asarray(inp["weights"], dtype=float); wq = wq / wq.sum()
+    t = ref["t_array"]; va = ref["v_array"]
+    w = ref["modes"]["freq"]; g = ref["modes"]["gamma"]             # (ntv, nq, np)
+    mask = numpy.ones(w.shape[1:], dtype=bool); mask[0, :3] = False
+    dpdt = numpy.zeros((len(t), len(va)))
+    for it, tt in enumerate(t):
+        if tt == 0: continue
+        x = sc.h * sc.c * 100.0 * w / (sc.k * tt)
+        with numpy.errstate(all="ignore"):
+            cvm = numpy.where(mask[None], kb * x * x * numpy.exp(-x) / numpy.expm1(-x) ** 2, 0.0)
+        cvm = numpy.nan_to_num(cvm)
+        dpdt[it] = numpy.einsum("q,vqm->v", wq, g * cvm) / va
+    # strain fractions: equal thirds without a lattice block; with one, the fractions the run used (their relation to the lattice
+    # columns is C05's clause, checked there at the discretisation tolerance of numpy.gradient)
+    axial = ax_used / ax_used.sum(axis=1, keepdims=True) if ref["axial"] is not None else numpy.full((len(va), 3), 1.0 / 3.0)
+    cv = qd["cv_tv_au"]
+    for (i, j), gap in gaps.items():
+        if i > 3 or j > 3:
+            if numpy.any(gap != 0):
+                fails.append({"check": "shear_gap", "key": f"{i}{j}", "observed": float(numpy.max(numpy.abs(gap))), "expected": 0.0})
+            continue
+        with numpy.errstate(all="ignore"):
+            exp = t[:, None] * va[None] * dpdt ** 2 / (9.0 * axial[None, :, i - 1] * axial[None, :, j - 1] * cv)
+        exp[t == 0] = 0.0
+        sc_ = float(numpy.max(numpy.abs(exp))) or 1.0
+        ok, err, _ = family_close(gap, exp, rtol=1e-5, scale=sc_)
+        if gap.shape != exp.shape or not ok:
+            fails.append({"check": "gap_e2e", "key": f"{i}{j}", "observed": gap[min(2, len(t) - 1), :4].tolist(),
+                          "expected": exp[min(2, len(t) - 1), :4].tolist(), "rel": err})
+        if numpy.any(gap[t == 0] != 0):
+            fails.append({"check": "gap_T0", "key": f"{i}{j}", "observed": gap[t == 0][0, :4].tolist(), "expected": 0.0})
+    return fails
+
+
+def adapter_cases(ctx: Ctx, res: Result, n: int):
+    from harness import tvdata
+    from harness.common import make_rng
+    done = 0
+    for i in range(n):
+        rng = make_rng(ctx.seed, f"C02/adapter/{i}")
+        ds, desc = tvdata.draw_case(rng, small=True, force={"NT": int(rng.integers(2, 5))})
+        files = tvdata.case_files(ds)
+        fs = adapter_oracle(files)
+        done += 1
+        res.evaluations += 1
+        for f in fs[:3]:
+            res.oracle_failures.append(OracleFailure(
+                what=f"end to end: {f['check']} of c{f['key']} differs from T V (dP/dT)^2/(9 e_i e_j C_V) with the QHA layer's C_V"
+                     if f["check"] != "heat_capacity" else "the heat capacity handed over by the adapter is not the QHA layer's C_V(T,V)",
+                input={"adapter_files": files, "desc": jsonable_desc(desc)}, observed=f["observed"], expected=f["expected"],
+                site=f"C02:adapter:{f['check']}"))
+    res.distribution["adapter_e2e_cases"] = done
+
+
+def jsonable_desc(d):
+    from harness.common import jsonable
+    return jsonable(d)
+
+
 def run(ctx: Ctx) -> Result:
     # correspondence (gap / adia fields) + oracle of the gap on the non-shear classes
     res = c01.run(ctx, which=WHICH, pid=PID, fields=("gap", "adia", "iso"))
@@ -140,8 +232,11 @@ def run(ctx: Ctx) -> Result:
             res.samples.append({"tasklist": {"nq": par["nq"], "na": par["na"], "t": par["t"], "v": par["v"]},
                                 "c44_isothermal": out["44"][0].tolist(), "c44_adiabatic": out["44"][1].tolist(),
                                 "c11_adia_minus_iso": (out["11"][1] - out["11"][0]).tolist()})
-    res.distinct_nontrivial += dist["tasklist_cases"]
-    res.rule += ("; C02 additionally: task-list cases = one analytic spectrum each pushed through the real "
+    adapter_cases(ctx, res, 8 if thorough else 3)
+    res.distinct_nontrivial += dist["tasklist_cases"] + dist.get("adapter_e2e_cases", 0)
+    res.rule += ("; end-to-end adapter cases = one synthetic data set each through the real Calculator, gap compared with the formula "
+                 "built from the qha package's own C_V(T,V), the harness' per-mode fit and CODATA constants"
+                 "; C02 additionally: task-list cases = one analytic spectrum each pushed through the real "
                  "PhononContributionTaskList for all 21 keys (15 shear keys compared exactly, 6 non-shear keys against the "
                  "mpmath mixed derivative)")
     return res
@@ -165,6 +260,9 @@ def search(ctx: Ctx, res: Result) -> List[OracleFailure]:
 
 
 def replay(ctx: Ctx, payload) -> List[OracleFailure]:
+    if "adapter_files" in payload:
+        return [OracleFailure(what=f"end to end: {f['check']} of c{f['key']}", input=payload, observed=f["observed"], expected=f["expected"],
+                              site=f"C02:adapter:{f['check']}") for f in adapter_oracle(payload["adapter_files"])]
     if payload.get("tasklist"):
         par = payload["par"]
         d = c01.oracle_derivs(par)
